@@ -495,19 +495,20 @@ for _be, _tier, _to in ((4, 'quick', 900), (5, 'thorough', 3000)):
     _kw = dict(kind='bounded', unwind=_be + 2, dfcc=False, defines=['BE=%du' % _be], tier=_tier, src=CSCF, within=CSCW, contract='', prelude=[CSCP], lower=CSC_LOWER, reach=True,
                no_flags=['--conversion-check'], timeout=_to, inst='EdgeDataByValue = false, non-void EdgeTy (in-edges store the position of their out-edge)', trusted=_CSC_TRUSTED)
     _bd = 'numNodes <= 3, numEdges <= %d (all such graphs), every do_all in every order of its iterations, loops unwound completely' % _be
+    _rp = dict(prog='csc_inedges', lib=True, args=['nn', 'ne'] + ['OIDX[%dl]' % i for i in range(3)] + ['ODST[%dl]' % i for i in range(_be)])      # end-to-end native run on the counterexample's out-graph
     UNITS.append(Unit(name='CSC_createEdgeData' + _sfx, anchor=r'void createEdgeData\(const uint64_t e_new, const uint64_t e\)', occurrence=1, of=2,
                       proto='void CSC_createEdgeData(struct CSC* self, const uint64_t e_new, const uint64_t e)', bound_desc=_bd,
                       harness='  gv_any_graph();\n  uint64_t k = nondet_u64(), e = nondet_u64(); __CPROVER_assume(k < ne && e < ne);\n  CSC_createEdgeData(&G, k, e);\n  __CPROVER_assert(INDAT[k] == e, "in-edge k names out-edge e");\n  gv_check_out_unchanged();\n',
                       says='BOUNDED: createEdgeData (by-reference overload): in-edge slot e_new records the position e of its out-edge', **_kw))
-    UNITS.append(Unit(name='CSC_determineInEdgeIndices' + _sfx, anchor=r'void determineInEdgeIndices\(EdgeIndData& dataBuffer\)',
+    UNITS.append(Unit(name='CSC_determineInEdgeIndices' + _sfx, replay=_rp, anchor=r'void determineInEdgeIndices\(EdgeIndData& dataBuffer\)',
                       proto='void CSC_determineInEdgeIndices(struct CSC* self, uint64_t* dataBuffer)', bound_desc=_bd,
                       harness='  gv_any_graph();\n  for (unsigned n = 0; n < BN; ++n) DBUF[n] = 0;      /* constructIncomingEdges zeroes the counters first */\n  CSC_determineInEdgeIndices(&G, DBUF);\n  gv_check_in_index();\n  for (unsigned n = 0; n < BN; ++n) if (n < nn) __CPROVER_assert(DBUF[n] == INIDX[n], "the buffer holds the same prefix sums");\n  gv_check_out_unchanged();\n',
                       says='BOUNDED: determineInEdgeIndices from zeroed counters: in-edge index entry n = number of edges with destination <= n (prefix sum of the in-degrees), out-edges untouched', **_kw))
-    UNITS.append(Unit(name='CSC_determineInEdgeDestAndData' + _sfx, anchor=r'void determineInEdgeDestAndData\(EdgeIndData& dataBuffer\)',
+    UNITS.append(Unit(name='CSC_determineInEdgeDestAndData' + _sfx, replay=_rp, anchor=r'void determineInEdgeDestAndData\(EdgeIndData& dataBuffer\)',
                       proto='void CSC_determineInEdgeDestAndData(struct CSC* self, uint64_t* dataBuffer)', bound_desc=_bd, inline=['CSC_createEdgeData' + _sfx],
                       harness='  gv_any_graph();\n  for (unsigned n = 0; n < BN; ++n) if (n < nn) INIDX[n] = indeg_upto(n);      /* what determineInEdgeIndices leaves */\n  CSC_determineInEdgeDestAndData(&G, DBUF);\n  gv_check_in_index();\n  gv_check_in_edges();\n  gv_check_out_unchanged();\n',
                       says='BOUNDED: determineInEdgeDestAndData on a correct in-edge index and an arbitrary buffer: the in-edge slots are a bijection onto the out-edge slots, each in-edge of node d names an out-edge ending in d and carries that edge\'s source', **_kw))
-    UNITS.append(Unit(name='CSC_constructIncomingEdges' + _sfx, anchor=r'void constructIncomingEdges\(\)',
+    UNITS.append(Unit(name='CSC_constructIncomingEdges' + _sfx, replay=_rp, anchor=r'void constructIncomingEdges\(\)',
                       proto='void CSC_constructIncomingEdges(struct CSC* self)', bound_desc=_bd, inline=['CSC_createEdgeData' + _sfx, 'CSC_determineInEdgeIndices' + _sfx, 'CSC_determineInEdgeDestAndData' + _sfx],
                       harness='  gv_any_graph();\n  CSC_constructIncomingEdges(&G);\n  gv_check_in_index();\n  gv_check_in_edges();\n  gv_check_out_unchanged();\n',
                       says='BOUNDED: constructIncomingEdges end to end (real bodies of the three helpers inlined): the in-edge view presents exactly the reversed out-edges -- in-edge index = prefix sums of the in-degrees, in-slots <-> out-slots bijective with matching end points -- for every graph with <= 3 nodes and <= %d edges' % _be, **_kw))
